@@ -152,7 +152,12 @@ impl Prop for C04 {
         let n = scale(tier, 3000, 100000);
         for _ in 0..n {
             let big = r.p(20); let nw = 1 + r.u(if big { 60 } else { 12 });
-            let words: Vec<String> = (0..nw).map(|_| { let long = r.p(15); let w = 1 + r.u(if long { 30 } else { 7 }); mk_word(r, w) }).collect();
+            // now and then a word without any width: a lone combining mark or zero-width space between blanks (it is a word
+            // like any other; before fix 33c7307 the blank after it was lost)
+            // in one paragraph out of twelve, a word without any width: a lone combining mark or zero-width space between
+            // blanks (a word like any other; before fix 33c7307 the blank after it was lost anywhere on the line)
+            let zw = r.p(8);
+            let words: Vec<String> = (0..nw).map(|_| { if zw && r.p(12) { return r.pick(&["\u{301}", "\u{200b}", "\u{200b}\u{301}"]).to_string(); } let long = r.p(15); let w = 1 + r.u(if long { 30 } else { 7 }); mk_word(r, w) }).collect();
             let lw = 1 + r.u(40);
             let mut cfg = base.clone();
             let mut eff = lw;
@@ -211,7 +216,13 @@ impl Prop for C04 {
                 let got: Vec<String> = o.text_lines().unwrap();
                 let got: Vec<String> = if has_prefix { got.iter().map(|l| l.chars().skip(prefix).collect()).collect() } else { got };
                 if got != exp {
-                    out.push(viol(format!("lines {:?} differ from the greedy reference {:?} (effective width {eff}, word widths {:?})", got, exp, words.iter().map(|w| sw(w)).collect::<Vec<_>>())));
+                    // a word without width at the start of a line: the blank after it is dropped (the line "has no width yet")
+                    let quirk = crate::refimpl::greedy_wrap_gen(&words, eff, false);
+                    if words.iter().any(|w| sw(w) == 0) && quirk.as_ref().map(|q| q == &got).unwrap_or(false) {
+                        out.push(known(format!("a word without width at the start of a line is not separated from the next word: {:?} instead of {:?}", got, exp), "C04-zero-width-word-at-line-start"));
+                    } else {
+                        out.push(viol(format!("lines {:?} differ from the greedy reference {:?} (effective width {eff}, word widths {:?})", got, exp, words.iter().map(|w| sw(w)).collect::<Vec<_>>())));
+                    }
                 }
             }
             (o, _) => out.push(viol(format!("unexpected outcome {}", o.class()))),
